@@ -93,3 +93,81 @@ def add_sub_params(s1: float, s2: float, so: float, bits: int):
 
 def mul_params(s1: float, s2: float, so: float):
     return quantize_multiplier(float(s1) * float(s2) / float(so))
+
+
+# ---- gemmlowp fixed point pieces used by the quantised SOFTMAX reference kernel (reference/softmax.h) -------------------------------
+def _shl_sat(a: int, off: int) -> int:
+    return min(max(a * (1 << off), INT32_MIN), INT32_MAX)
+
+
+def exp_on_negative_values(a: int) -> int:
+    """gemmlowp exp_on_negative_values: FixedPoint<int32,5> raw input (<= 0), result FixedPoint<int32,0> raw"""
+    if a == 0:
+        return INT32_MAX
+    one_quarter = 1 << 24
+    a_mod = (a & (one_quarter - 1)) - one_quarter
+    x0 = _shl_sat(a_mod, 5)
+    constant_term, c13 = 1895147668, 715827883
+    x = x0 + (1 << 28)
+    x2 = srdhm(x, x)
+    x3 = srdhm(x2, x)
+    x4 = srdhm(x2, x2)
+    x4_4 = rounding_divide_by_pot(x4, 2)
+    t = rounding_divide_by_pot(srdhm(x4_4 + x3, c13) + x2, 1)
+    result = constant_term + srdhm(constant_term, x + t)
+    remainder = a_mod - a
+    for exponent, mult in ((-2, 1672461947), (-1, 1302514674), (0, 790015084), (1, 290630308), (2, 39332535), (3, 720401), (4, 242)):
+        if remainder & (1 << (26 + exponent)):
+            result = srdhm(result, mult)
+    return result
+
+
+def one_over_one_plus_x_for_x_in_0_1(a: int) -> int:
+    """gemmlowp: a = FixedPoint<int32,0> raw in [0,1) -> 1/(1+a) as FixedPoint<int32,0> raw (Newton-Raphson, 3 iterations)"""
+    s = a + INT32_MAX  # RoundingHalfSum(a, One)
+    half_denominator = (s + (1 if s >= 0 else -1)) // 2 if s >= 0 else -((-s + 1) // 2)
+    x = 1515870810 + srdhm(half_denominator, -1010580540)  # F2
+    for _ in range(3):
+        hdx = srdhm(half_denominator, x)  # F2
+        one_minus = (1 << 29) - hdx  # F2::One() = 2^29
+        x = x + _shl_sat(srdhm(x, one_minus), 2)  # F4 -> F2
+    return _shl_sat(x, 1)  # ExactMulByPot<-1> then Rescale<0>
+
+
+def softmax_params(beta: float, input_scale: float):
+    """PreprocessSoftmaxScaling(beta, input_scale, 5) + CalculateInputRadius(5, shift, 31): (multiplier, left_shift, diff_min)"""
+    real = min(float(beta) * float(input_scale) * (1 << 26), float((1 << 31) - 1))
+    m, shift = quantize_multiplier(real)
+    radius = math.floor(31.0 * (1 << 26) / (1 << shift)) if shift >= 0 else math.floor(31.0 * (1 << 26) * (1 << -shift))
+    return m, shift, -int(radius)
+
+
+def softmax_row_q8(row, beta: float, input_scale: float, out_min: int, out_max: int, _cache=None):
+    """reference_ops::Softmax (8-bit, gemmlowp fixed point) over one row of raw quantised input codes; the result does not depend on the input zero point"""
+    m, shift, diff_min = softmax_params(beta, input_scale)
+    mx = max(row)
+    cache = {} if _cache is None else _cache
+
+    def exp_of(diff):
+        if diff not in cache:
+            cache[diff] = exp_on_negative_values(multiply_by_quantized_multiplier(diff, m, shift))
+        return cache[diff]
+
+    total = 0
+    for v in row:
+        d = v - mx
+        if d >= diff_min:
+            total += rounding_divide_by_pot(exp_of(d), 12)
+    headroom_plus_one = 32 - total.bit_length() if total > 0 else 32
+    num_bits_over_unit = 12 - headroom_plus_one
+    shifted_sum_minus_one = ((total << headroom_plus_one) & 0xFFFFFFFF) - (1 << 31)
+    shifted_scale = one_over_one_plus_x_for_x_in_0_1(shifted_sum_minus_one)
+    out = []
+    for v in row:
+        d = v - mx
+        if d >= diff_min:
+            unsat = rounding_divide_by_pot(srdhm(shifted_scale, exp_of(d)), num_bits_over_unit + 31 - 8)
+            out.append(min(out_max, max(out_min, unsat + out_min)))
+        else:
+            out.append(out_min)
+    return out
